@@ -23,7 +23,7 @@ use std::f64::consts::{PI, TAU};
 pub fn spec() -> Spec {
     Spec {
         id: "C10",
-        rule: "closed sections = envelope of circles r(u) = r_le (1-u) + r_te u + A sin(pi w(u)) (maximum at 28-42% of the camber, |r'| <= 0.6) along a camber arc of length 0.3..300 (one in five 300..30000) and curvature x length in [0, 1] (straight in one case of four), thickness 4-25% of the camber length, \
+        rule: "closed sections = envelope of circles r(u) = r_le (1-u) + r_te u + A sin(pi w(u)) (maximum at 28-44% of the camber, |r'| <= 0.6) along a camber arc of length 0.3..300 (one in five 300..30000) and curvature x length in [0, 1] (straight in one case of four), thickness 4-25% of the camber length, \
                edge radii 0.6-6% , 200..3000 boundary points with uneven density, random pose and mirror image, both windings, random start vertex; open sections (trailing cap removed) for the open-edge methods. \
                Configurations: {TMaxFwd, DirectionFwd(+-chord)} x 8 edge locators at either end x {Detect, UpperDir(v)} x core_tol in {1e-3, 1e-4, 1e-5} x camber length. \
                Non-trivial = an accepted analysis with at least 5 stations; distinct = hash of the section parameters and the configuration.",
@@ -232,11 +232,13 @@ pub fn make_section(c: &mut Ctx) -> Section {
     let kappa = if r.chance(0.25) { 0.0 } else { r.range(0.05, 1.0) / len };
     let tmax = len * r.range(0.04, 0.25);
     let r_le = len * r.range(0.006, 0.06).min(0.45 * tmax / len);
-    let r_te = (len * r.range(0.006, 0.06)).min(r_le * r.range(0.3, 1.0));
+    // the trailing radius is usually the smaller one; three sections in ten have a thin nose and a
+    // thick tail instead
+    let r_te = if r.chance(0.3) { (r_le * r.range(1.0, 2.5)).min(0.45 * tmax) } else { (len * r.range(0.006, 0.06)).min(r_le * r.range(0.3, 1.0)) };
     // amplitude so that the maximum radius is about tmax / 2, and |r'| stays well below 1
     let mut amp = (tmax / 2.0 - 0.5 * (r_le + r_te)).max(0.0) * if r.chance(0.15) { 0.0 } else { 1.0 };
     // maximum thickness at 28-42% of the camber length
-    let u_max = r.range(0.28, 0.42);
+    let u_max = r.range(0.28, 0.44);
     let warp = u_max / (1.0 - u_max);
     let n = r.log_range(200.0, 3000.0) as usize;
     let mirror = r.bool();
@@ -249,6 +251,15 @@ pub fn make_section(c: &mut Ctx) -> Section {
             break;
         }
         amp *= 0.8;
+    }
+    // a thick tail must not be the thickest place of the section (the maximum stays in the forward
+    // half, as on an airfoil): otherwise fall back to a tail thinner than the nose
+    let mut r_te = r_te;
+    {
+        let probe = Section { len, kappa, r_le, r_te, amp, warp, local: Vec::new(), n_upper: 0, n_te_cap: 0, n_lower: 0, sag: 0.0, mirror: false, pose: Iso2::identity(), cut: f64::INFINITY, up_params: vec![], lo_params: vec![] };
+        if r_te > r_le && probe.r_max().0 > 0.46 * len {
+            r_te = 0.7 * r_le;
+        }
     }
     let mut s = Section { len, kappa, r_le, r_te, amp, warp, local: Vec::new(), n_upper: 0, n_te_cap: 0, n_lower: 0, sag: 0.0, mirror, pose, cut: f64::INFINITY, up_params: vec![], lo_params: vec![] };
     // arc positions: a blend of uniform and cosine spacing, jittered
@@ -428,6 +439,31 @@ fn analyse(c: &mut Ctx, sec: &Section, section: &Curve2, cfg: &Config, class: &s
     let tol = cfg.tol_rel * sec.len;
     let chord = chord_dir(sec);
     let (s_max, _) = sec.r_max();
+    if cfg.orient == 0 {
+        // TMaxFwd decides by the position of the largest station along the *extracted* camber line,
+        // which stops about one edge radius short of either end.  Where that is within 5% of the
+        // middle, or disagrees with the position along the whole camber, the expected orientation is
+        // too close to call and the case is not used.
+        let frac = section.make_hull().and_then(|h| engeom::airfoil::extract_camber_line(section, &h, Some(tol)).ok()).and_then(|st| {
+            let ctr: Vec<Point2> = st.iter().map(|x| x.circle.center).collect();
+            let k = (0..st.len()).max_by(|a, b| st[*a].radius().partial_cmp(&st[*b].radius()).unwrap())?;
+            let cum: Vec<f64> = std::iter::once(0.0).chain(ctr.windows(2).scan(0.0, |acc, w| { *acc += (w[1] - w[0]).norm(); Some(*acc) })).collect();
+            Some(cum[k] / cum[cum.len() - 1])
+        });
+        let half_max = |a: f64, b: f64| (0..=400).map(|k| sec.r(a + (b - a) * k as f64 / 400.0)).fold(0.0, f64::max);
+        let (m1, m2) = (half_max(0.0, 0.5 * sec.len), half_max(0.5 * sec.len, sec.len));
+        if (m1 - m2).abs() < 0.03 * m1.max(m2) {
+            c.note("TMaxFwd too close to call (case not used)");
+            return None;
+        }
+        if let Some(f) = frac {
+            // the extraction may run from either end: compare distances from the middle only
+            if (f - 0.5).abs() < 0.05 || (s_max / sec.len - 0.5).abs() < 0.04 {
+                c.note("TMaxFwd too close to call (case not used)");
+                return None;
+            }
+        }
+    }
     let (orient, le_is_start): (Box<dyn CamberOrient>, bool) = match cfg.orient {
         0 => (TMaxFwd::make(), s_max <= 0.5 * sec.len),
         1 => (DirectionFwd::make(chord), true),
@@ -463,12 +499,46 @@ fn analyse(c: &mut Ctx, sec: &Section, section: &Curve2, cfg: &Config, class: &s
             c.maxf("steps / bound", steps as f64 / limit as f64);
             match res {
                 Err(e) => {
-                    c.note(&format!("rejected: {} | {}", cfg.name(), e.to_string().chars().take(70).collect::<String>()));
+                    let msg = e.to_string();
+                    c.note(&format!("rejected: {} | {}", cfg.name(), msg.chars().take(70).collect::<String>()));
                     c.note(&format!("rejected by configuration le={} te={}", LOCATORS[cfg.le], LOCATORS[cfg.te]));
+                    // The generated family is one every locator is applicable to (measured: none of
+                    // them but the randomised RansacRadiusEdge ever rejects it), so a rejection is
+                    // reported against the stage that raised it.
+                    let who = if msg.contains("initial camber line extraction") {
+                        "camber-extraction"
+                    } else if msg.contains("leading edge") {
+                        LOCATORS[cfg.le]
+                    } else if msg.contains("trailing edge") && heuristic(LOCATORS[cfg.le]) {
+                        // the trailing locator works on what the leading one left behind
+                        LOCATORS[cfg.le]
+                    } else if msg.contains("trailing edge") {
+                        LOCATORS[cfg.te]
+                    } else if heuristic(LOCATORS[cfg.le]) {
+                        LOCATORS[cfg.le]
+                    } else if heuristic(LOCATORS[cfg.te]) {
+                        LOCATORS[cfg.te]
+                    } else {
+                        "analysis"
+                    };
+                    // (the camber extraction of an open section may legitimately fail next to the gap)
+                    let judged = cfg.le != 7 && cfg.te != 7 && !(who == "camber-extraction" && sec.cut.is_finite());
+                    if judged && heuristic(who) {
+                        c.check("EdgeLocate", "stations and edge point added by the locator satisfy the inscribed-circle, camber and edge clauses", who, false, || format!("a section of the generated family is rejected: {} ({})", msg.chars().take(160).collect::<String>(), cfg.name()));
+                    } else if judged {
+                        c.check("AirfoilGeometry::try_analyze", "a section of the generated family is accepted", who, false, || format!("Err: {} ({})", msg.chars().take(160).collect::<String>(), cfg.name()));
+                    }
                     None
                 }
                 Ok(geo) => {
                     c.note(&format!("accepted le={} te={}", LOCATORS[cfg.le], LOCATORS[cfg.te]));
+                    if cfg.le != 7 && cfg.te != 7 {
+                        for who in [LOCATORS[cfg.le], LOCATORS[cfg.te], "analysis", "camber-extraction"] {
+                            if !heuristic(who) {
+                                c.check("AirfoilGeometry::try_analyze", "a section of the generated family is accepted", who, true, String::new);
+                            }
+                        }
+                    }
                     let base = section
                         .make_hull()
                         .and_then(|h| engeom::airfoil::extract_camber_line(section, &h, Some(tol)).ok())
@@ -866,8 +936,16 @@ fn run_equiv(c: &mut Ctx) {
     let sec = make_section(c);
     let mut cfg = pick_config(c, true);
     cfg.tol_rel = *c.rng.pick(&[1e-3, 1e-4]);
-    cfg.le = *c.rng.pick(&[2usize, 4]);
-    cfg.te = *c.rng.pick(&[2usize, 4]);
+    // half of the twins use the strict locators (all clauses), the other half any deterministic
+    // locator (acceptance only)
+    let strict_twin = c.rng.bool();
+    if strict_twin {
+        cfg.le = *c.rng.pick(&[2usize, 4]);
+        cfg.te = *c.rng.pick(&[2usize, 4]);
+    } else {
+        cfg.le = *c.rng.pick(&[2usize, 3, 4, 5, 6]);
+        cfg.te = *c.rng.pick(&[2usize, 3, 4, 5, 6]);
+    }
     tol_above_sag(&mut cfg, &sec);
     let class = if sec.kappa == 0.0 { "straight-camber" } else { "curved-camber" };
     c.family(&format!("equivariance/{class}/le={}/te={}", LOCATORS[cfg.le], LOCATORS[cfg.te]));
@@ -902,10 +980,15 @@ fn run_equiv(c: &mut Ctx) {
             return;
         }
         _ => {
-            c.note(&format!("equivariance: accepted only one of the twins ({kind_name})"));
+            c.check("AirfoilGeometry::try_analyze", "accepted alike after a rigid motion, vertex-order reversal or start-vertex rotation", class, false, || format!("accepted only one of the twins ({kind_name}, {})", cfg.name()));
             return;
         }
     };
+    c.check("AirfoilGeometry::try_analyze", "accepted alike after a rigid motion, vertex-order reversal or start-vertex rotation", class, true, String::new);
+    if !strict_twin {
+        c.distinct(&(sec.len.to_bits(), kind, cfg.le, cfg.te));
+        return;
+    }
     let map = |p: &Point2| if kind == 0 { motion * p } else { *p };
     let slack = 20.0 * tol + 4.0 * sec.sag;
     let eq = |c: &mut Ctx, what: &str, x: f64, y: f64| {
@@ -942,7 +1025,7 @@ fn run_equiv(c: &mut Ctx) {
 // that end is the leading (front of the station list) or the trailing one (back)
 
 fn run_front_back(c: &mut Ctx) {
-    let sec = make_section(c);
+    let mut sec = make_section(c);
     let open = c.rng.chance(0.3);
     let x = if open { c.rng.int(0, 1) } else { *c.rng.pick(&[2usize, 3, 4, 5, 6]) };
     let other = *c.rng.pick(&[2usize, 4]);
@@ -963,6 +1046,7 @@ fn run_front_back(c: &mut Ctx) {
         let mut pts: Vec<Point2> = world[lower_start..].to_vec();
         pts.extend_from_slice(&world[..keep_u]);
         let Ok(section) = Curve2::from_points(&pts, ctol, false) else { return };
+        sec.cut = sec.up_params[keep_u.saturating_sub(1).min(sec.up_params.len() - 1)].min(sec.lo_params[(sec.lo_params.len() - 1).saturating_sub(skip_l)]);
         // open end = generator end: trailing when the leading edge is the start (orient 1), leading when orient 2
         (section, Config { orient: 2, le: x, te: other, ..base.clone() }, Config { orient: 1, le: other, te: x, ..base.clone() })
     } else {
